@@ -322,7 +322,32 @@ func (p *parser) location() (Node, error) {
 // Draw draws a location over a parent of n bases: depth <= maxDepth, joins of 2..6 operands,
 // optional partial markers on spans, no complement directly inside a complement.
 func Draw(t *rapid.T, name string, n, maxDepth int) Node {
+	// one location in twenty-five (of those that may nest at least twice) is bushy: every operand of every join down
+	// to the last level is itself a join, with 2..6 operands at each level - up to 6^maxDepth leaves. The ordinary draw
+	// stops at a leaf half of the time at every node, so that a location with more than a few dozen leaves never comes up.
+	if maxDepth >= 2 && rapid.IntRange(0, 24).Draw(t, name+"_bushy") == 0 {
+		return drawBushy(t, name, n, maxDepth, true)
+	}
 	return draw(t, name, n, maxDepth, true)
+}
+
+func drawBushy(t *rapid.T, name string, n, depth int, allowComplement bool) Node {
+	if depth == 0 {
+		return drawLeaf(t, name, n)
+	}
+	if allowComplement && depth >= 2 && rapid.IntRange(0, 5).Draw(t, name+"_complemented") == 0 {
+		return Complement(drawBushy(t, name+"c", n, depth-1, false))
+	}
+	kids := make([]Node, rapid.IntRange(2, 6).Draw(t, name+"_arity"))
+	for i := range kids {
+		kn := fmt.Sprintf("%sj%d", name, i)
+		if depth == 1 && rapid.IntRange(0, 3).Draw(t, kn+"_minus") == 0 {
+			kids[i] = Complement(drawLeaf(t, kn, n))
+		} else {
+			kids[i] = drawBushy(t, kn, n, depth-1, true)
+		}
+	}
+	return Join(kids...)
 }
 
 // drawPos draws a coordinate in [lo, hi]; on long parents one in four is an edge value (a power of
